@@ -37,7 +37,15 @@ def assemble(template_path):
         contract = []
         loopspecs = {}
         i += 1
-        while i < len(lines) and re.match(r"^\s*//@(\||loop\s+\d+\||loopbody\s+\d+\||loopbefore\s+\d+\|)", lines[i]):
+        rewrites = []
+        while i < len(lines) and re.match(r"^\s*//@(\||loop\s+\d+\||loopbody\s+\d+\||loopbefore\s+\d+\||closure\|)", lines[i]):
+            cm = re.match(r"^\s*//@closure\|\s?(.*?)\s+=>\s+(.*)$", lines[i])
+            if cm:
+                # a closure gets its contract: `|x| expr`  =>  `|x: T| -> (r: U) ensures .. { expr }`.  The closure's
+                # executable expression must reappear unchanged inside the braces (checked below).
+                rewrites.append((cm.group(1), cm.group(2)))
+                i += 1
+                continue
             pm = re.match(r"^\s*//@loopbefore\s+(\d+)\|\s?(.*)$", lines[i])
             if pm:
                 # ghost statements placed immediately before the n-th loop
@@ -84,6 +92,14 @@ def assemble(template_path):
             for cl, tl in contract:
                 out.append(indent + "  " + cl)
                 linemap.append((len(out), ("contract", tl, sel[-1], cl.strip())))
+            for old, new in rewrites:
+                if body.count(old) != 1:
+                    raise extract.AnchorLost(f"closure `{old}` occurs {body.count(old)} times in {sel[-1]} (expected once)")
+                expr = old.split("|")[-1].strip()
+                if "{ " + expr + " }" not in new:
+                    raise extract.AnchorLost(f"closure contract for `{old}` does not keep the closure's expression `{expr}`")
+                body = body.replace(old, new)
+                rec["changed"].append(f"closure `{old}` given a contract (parameter type, named result, ensures clause; its expression `{expr}` unchanged): `{new}`")
             if loopspecs:
                 body = splice_loops(body, loopspecs)
                 rec["changed"].append("ghost loop specifications (invariant/decreases; `proof { }` blocks at the start of a loop body) spliced into loop(s) " + ", ".join(sorted({str(abs(k) % 1000) for k in loopspecs})) + "; executable text unchanged")
